@@ -69,7 +69,19 @@ type parseContext struct {
 	macros   map[string][]string
 
 	fileLocation string
+
+	// importBudget is the amount of import directives that still can be
+	// expanded, shared with contexts of all imported files.
+	importBudget *int
 }
+
+// maxImportExpansions is the limit on the total number of import directives
+// expanded while reading a single configuration, including imported files.
+//
+// The expansion depth limit alone does not bound the amount of work: a
+// snippet or a file that imports itself twice doubles the number of pending
+// imports at each level.
+const maxImportExpansions = 65536
 
 func validateNodeName(s string) error {
 	if len(s) == 0 {
@@ -348,8 +360,9 @@ func (ctx *parseContext) readNodes() ([]Node, error) {
 	return res, nil
 }
 
-func readTree(r io.Reader, location string, expansionDepth int) (nodes []Node, snips map[string][]Node, macros map[string][]string, err error) {
+func readTree(r io.Reader, location string, expansionDepth int, importBudget *int) (nodes []Node, snips map[string][]Node, macros map[string][]string, err error) {
 	ctx := parseContext{
+		importBudget: importBudget,
 		Dispenser:    lexer.NewDispenser(location, r),
 		snippets:     make(map[string][]Node),
 		macros:       map[string][]string{},
@@ -385,7 +398,8 @@ func readTree(r io.Reader, location string, expansionDepth int) (nodes []Node, s
 }
 
 func Read(r io.Reader, location string) (nodes []Node, err error) {
-	nodes, _, _, err = readTree(r, location, 0)
+	importBudget := maxImportExpansions
+	nodes, _, _, err = readTree(r, location, 0, &importBudget)
 	nodes = expandEnvironment(nodes)
 	return
 }
